@@ -1,18 +1,9 @@
 import CV.Proofs.HuffCode
 /-!
-# The constructors succeed and both arrays describe `huffTree ws`; consequences for
+# Both arrays describe `huffTree ops ws`, for every weight type; consequences for
 `encode_symbol_suffix`, `encode_symbol_prefix`, `decode_symbol`
 -/
 namespace CV.Huff
-
-/-- the Huffman tree of a weight list, vertices labelled with their array indices -/
-def huffTree (ws : List Nat) : Option Tree := treeLoop ws.length ws.zipIdx ws.length
-
-/-- the sum of all weights is representable in the weight type (`none`: exact sums) -/
-def WeightsFit (wb : Option Nat) (ws : List Nat) : Prop :=
-  match wb with
-  | none => True
-  | some k => ws.sum < 2^k
 
 /-- `en` and `dn` are the encoder array and decoder table of the tree `T` on `n` symbols -/
 structure Built (n : Nat) (en : List Nat) (dn : List (Nat × Nat)) (T : Tree) : Prop where
@@ -28,7 +19,16 @@ structure Built (n : Nat) (en : List Nat) (dn : List (Nat × Nat)) (T : Tree) : 
   inner_len : T.inner.length + 1 = n
   root : T.rootId = 2 * n - 2
 
-theorem heapOK_zipIdx (ws : List Nat) : HeapOK ws.zipIdx ws.length := by
+theorem usizeMax_div4 : usizeMax / 4 < 2^62 := by decide
+
+section
+variable {α : Type} (ops : WeightOps α)
+
+/-- the Huffman tree of a weight list, vertices labelled with their array indices
+(`none`: an addition panicked) -/
+def huffTree (ws : List α) : Option Tree := treeLoop ops ws.length ws.zipIdx ws.length
+
+theorem heapOK_zipIdx (ws : List α) : HeapOK ws.zipIdx ws.length := by
   constructor
   · have := List.zipIdx_map_snd 0 ws
     rw [this]
@@ -38,35 +38,25 @@ theorem heapOK_zipIdx (ws : List Nat) : HeapOK ws.zipIdx ws.length := by
     have := List.mem_zipIdx hp
     simp; omega
 
-theorem noOverflow_zipIdx {wb : Option Nat} {ws : List Nat} (h : WeightsFit wb ws) :
-    NoOverflow wb ws.zipIdx := by
-  cases wb with
-  | none => trivial
-  | some k =>
-    simp only [NoOverflow, WeightsFit] at *
-    have := List.zipIdx_map_fst 0 ws
-    rw [this]; exact h
+variable {ops}
 
-theorem usizeMax_div4 : usizeMax / 4 < 2^62 := by decide
-
-theorem build_ok (wb : Option Nat) (ws : List Nat) (hn : 0 < ws.length)
-    (hmax : ws.length ≤ usizeMax / 4) (hfit : WeightsFit wb ws) :
-    ∃ en dn T, encTree wb ws = .ok en ∧ decTree wb ws = .ok dn ∧ huffTree ws = some T ∧
-      Built ws.length en dn T := by
+/-- whenever the abstract merge loop succeeds on an admissible number of symbols, both
+constructors succeed and their arrays describe its tree -/
+theorem build_of_tree {ws : List α} (hn : 0 < ws.length) (hmax : ws.length ≤ usizeMax / 4)
+    {T : Tree} (hT : huffTree ops ws = some T) :
+    ∃ en dn, encTree ops ws = .ok en ∧ decTree ops ws = .ok dn ∧ Built ws.length en dn T := by
   have h62 := usizeMax_div4
   have hlen : ws.zipIdx.length = ws.length := by simp
-  have hne : ws.zipIdx ≠ [] := by
-    intro h; rw [h] at hlen; simp at hlen; omega
   have hok := heapOK_zipIdx ws
-  have hno := noOverflow_zipIdx hfit
-  obtain ⟨T, hT, hleaves, hinner, hcount, hroot, hsingle⟩ :=
-    treeLoop_spec ws.length ws.zipIdx ws.length hok hlen.symm hne
+  unfold huffTree at hT
+  obtain ⟨hleaves, hinner, hcount, hroot, hsingle⟩ :=
+    treeLoop_spec ws.length ws.zipIdx ws.length hok hlen.symm T hT
   obtain ⟨en, hen, henlen, hkeep, hdescE⟩ :=
-    encLoop_spec wb ws.length ws.zipIdx (List.replicate (ws.length * 2 - 1) 0) ws.length hok
-      hlen.symm hne hno (by simp; omega) (by simp; omega)
+    encLoop_spec ops ws.length ws.zipIdx (List.replicate (ws.length * 2 - 1) 0) ws.length hok
+      hlen.symm (by simp; omega) (by simp; omega) T hT
   obtain ⟨dn, hdn, hdnlen, _, hdescD⟩ :=
-    decLoop_spec wb ws.length ws.length ws.zipIdx [] ws.length hok hlen.symm hne hno
-      (by simp) (by simp; omega)
+    decLoop_spec ops ws.length ws.length ws.zipIdx [] ws.length hok hlen.symm
+      (by simp) (by simp; omega) T hT
   have hrootId : T.rootId = 2 * ws.length - 2 := by
     by_cases h2 : 2 ≤ ws.length
     · have := hroot (by omega); omega
@@ -79,7 +69,7 @@ theorem build_ok (wb : Option Nat) (ws : List Nat) (hn : 0 < ws.length)
         simp [Tree.rootId]; omega
       | [], h => simp at h; omega
       | _ :: _ :: _, h => simp at h; omega
-  refine ⟨en, dn, T, ?_, ?_, hT, ?_⟩
+  refine ⟨en, dn, ?_, ?_, ?_⟩
   · simp only [encTree, hlen]
     rw [if_neg (by omega)]
     exact hen
@@ -90,7 +80,7 @@ theorem build_ok (wb : Option Nat) (ws : List Nat) (hn : 0 < ws.length)
   · refine
       { n_pos := hn, n_max := hmax, en_len := by simp at henlen; omega,
         dn_len := by simp at hdnlen; omega,
-        encDesc := hdescE T hT, root0 := ?_, decDesc := hdescD T hT, leaves := ?_,
+        encDesc := hdescE, root0 := ?_, decDesc := hdescD, leaves := ?_,
         inner_ge := ?_, inner_len := by omega, root := hrootId }
     · rw [hkeep, hrootId]
       · rw [List.getElem?_replicate, if_pos (by omega)]
@@ -109,6 +99,51 @@ theorem build_ok (wb : Option Nat) (ws : List Nat) (hn : 0 < ws.length)
     · intro i hi
       have := hinner i hi
       omega
+
+/-- if the encoder constructor returns an array, the merge loop succeeded (and the number of
+symbols passed the constructor's guard) -/
+theorem encTree_ok {ws : List α} {en : List Nat} (h : encTree ops ws = .ok en) :
+    0 < ws.length ∧ ws.length ≤ usizeMax / 4 ∧ ∃ T, huffTree ops ws = some T := by
+  simp only [encTree, List.length_zipIdx] at h
+  split at h
+  · simp at h
+  · next hg =>
+    have hne : ws.zipIdx ≠ [] := by
+      intro e
+      have : ws.zipIdx.length = 0 := by rw [e]; rfl
+      rw [List.length_zipIdx] at this; omega
+    exact ⟨by omega, by omega, encLoop_ok_tree ops _ _ _ _ en hne h⟩
+
+theorem decTree_ok {ws : List α} {dn : List (Nat × Nat)} (h : decTree ops ws = .ok dn) :
+    0 < ws.length ∧ ws.length ≤ usizeMax / 2 ∧ ∃ T, huffTree ops ws = some T := by
+  simp only [decTree, List.length_zipIdx] at h
+  split at h
+  · simp at h
+  · next hg =>
+    have hne : ws.zipIdx ≠ [] := by
+      intro e
+      have : ws.zipIdx.length = 0 := by rw [e]; rfl
+      rw [List.length_zipIdx] at this; omega
+    exact ⟨by omega, by omega, decLoop_ok_tree ops _ _ _ _ dn hne h⟩
+
+/-- the central fact: whatever the weight type, an encoder array returned by the constructor
+comes with the decoder table of the same tree -/
+theorem built_of_enc {ws : List α} {en : List Nat} (h : encTree ops ws = .ok en) :
+    ∃ dn T, decTree ops ws = .ok dn ∧ huffTree ops ws = some T ∧ Built ws.length en dn T := by
+  obtain ⟨hn, hmax, T, hT⟩ := encTree_ok h
+  obtain ⟨en', dn, he, hd, B⟩ := build_of_tree hn hmax hT
+  rw [h] at he; injection he with he; subst he
+  exact ⟨dn, T, hd, hT, B⟩
+
+theorem built_of_dec {ws : List α} {dn : List (Nat × Nat)} (h : decTree ops ws = .ok dn)
+    (hmax : ws.length ≤ usizeMax / 4) :
+    ∃ en T, encTree ops ws = .ok en ∧ huffTree ops ws = some T ∧ Built ws.length en dn T := by
+  obtain ⟨hn, _, T, hT⟩ := decTree_ok h
+  obtain ⟨en, dn', he, hd, B⟩ := build_of_tree hn hmax hT
+  rw [h] at hd; injection hd with hd; subst hd
+  exact ⟨en, T, he, hT, B⟩
+
+end
 
 variable {n : Nat} {en : List Nat} {dn : List (Nat × Nat)} {T : Tree}
 
